@@ -443,6 +443,19 @@ def extract_fragment(src, toks, relpath, item, spec, ex):
                 raise Undecided('frame-lost', 'fragment %s: `%s` is used again at %s:%d, after the fragment; the '
                                 'claim that the rest of fn %s depends on it only through the fragment result no '
                                 'longer holds' % (name, ident, relpath, t.line, item['fn']))
+    # frame claim, part 2: between its defining statement and the fragment the identifier is not read
+    for ident, def_anchor in item.get('dead_between', []):
+        dpos = find_anchor(src, toks[ob].end, toks[fs].start, def_anchor, 1)
+        if dpos is None:
+            raise Undecided('anchor-lost', 'fragment %s: defining statement `%s` not found' % (name, def_anchor))
+        ds = next(i for i in range(ob, cb + 1) if toks[i].start >= dpos[0])
+        de = stmt_end(toks, ds, fs)
+        for t_i in range(de + 1, fs):
+            t = toks[t_i]
+            if t.kind == 'ident' and t.text == ident and toks[t_i - 1].text != '.':
+                raise Undecided('frame-lost', 'fragment %s: `%s` is read at %s:%d, between its definition and the '
+                                'fragment; the rest of fn %s no longer depends on it only through the fragment '
+                                'result' % (name, ident, relpath, t.line, item['fn']))
     edits, loops = region_edits(src, toks, relpath, name, spec, ex, fs, fe, fs, fe)
     header = 'fn %s%s(%s) -> (%s: %s)\n%s{\n' % (name, item.get('generics', ''), item['params'],
                                                 (spec.ret if spec and spec.ret else 'r'), item['ret'],
